@@ -12,6 +12,8 @@ Open Scope Z_scope.
 Record step := mkStep {
   p_seg : seg;              (* the injected client segment *)
   p_fresh : N * Z * Z;      (* (key, iss, ipid) of the State a SYN creates (drawn by the implementation) *)
+  p_write : option bytes;   (* Some w: this step is not a client segment but a WRITE of w by the listener on the
+                               connection (Socket.Write / State.write); p_seg then repeats the last client segment *)
   p_dec : bool;             (* the decoder goroutine of the connection ran to its end during this step *)
   p_frames : list bytes     (* every frame emitted during the step, in order *)
 }.
@@ -33,6 +35,13 @@ Fixpoint run (me : ip) (smac reply : bytes) (t : table) (steps : list step) : li
   match steps with
   | [] => []
   | s :: r =>
+      match p_write s with
+      | Some w =>
+          match write_step t the_key w with
+          | Some (t', o) => [wire smac o] :: run me smac reply t' r
+          | None => [] :: run me smac reply t r
+          end
+      | None =>
       let res := handle_tcp (fun a => ip_eqb a me) t (p_fresh s) (p_seg s) in
       let fr := map (wire smac) (r_out res) in
       if p_dec s then
@@ -41,6 +50,7 @@ Fixpoint run (me : ip) (smac reply : bytes) (t : table) (steps : list step) : li
         | None => fr :: run me smac reply (r_tbl res) r
         end
       else fr :: run me smac reply (r_tbl res) r
+      end
   end.
 
 Definition model_frames (c : case) : list (list bytes) := run (q_me c) (q_smac c) (q_reply c) [] (q_steps c).
@@ -57,7 +67,7 @@ Definition SIG_SYNACK := 5%N.      (* SYN not answered by exactly one SYN-ACK ac
 Definition SIG_SEQ := 6%N.         (* sequence number <> ISS + 1 + bytes (and FIN) already sent *)
 Definition SIG_ACKNUM := 7%N.      (* acknowledgement number is not the end of the client's in-order stream *)
 Definition SIG_UNACKED := 8%N.     (* a data segment / FIN of the client was not acknowledged up to its end *)
-Definition SIG_REPLY := 9%N.       (* the payload bytes emitted, in order, are not the decoder's reply *)
+Definition SIG_REPLY := 9%N.       (* the payload bytes emitted, in order, are not the written bytes / the decoder's reply *)
 
 (* what has been seen of the listener's own direction so far *)
 Record jst := mkJ {
@@ -72,7 +82,7 @@ Definition seg_end (g : seg) : Z :=
 Definition is_syn (g : seg) : bool := hasf (g_flags g) SYN && negb (hasf (g_flags g) ACK).
 
 (* one emitted frame, in answer to (or while the last injected segment was) g *)
-Definition frame_sig (g : seg) (j : jst) (fr : bytes) : N * jst :=
+Definition frame_sig_gen (syn : bool) (g : seg) (j : jst) (fr : bytes) : N * jst :=
   let v := Check.view fr in
   if negb (Check.f_ok v) then (SIG_MALFORMED, j)
   else if negb (Check.f_ipsum_ok v) then (SIG_IPSUM, j)
@@ -81,7 +91,7 @@ Definition frame_sig (g : seg) (j : jst) (fr : bytes) : N * jst :=
                 (Check.f_sport v =? g_dport g) && (Check.f_dport v =? g_sport g) &&
                 eqb_bytes (Check.f_dmac v) (Check.mac_of (g_sip g)))
        then (SIG_ADDRESS, j)
-  else if is_syn g then
+  else if syn then
     (if (Check.f_flags v =? SYN + ACK) && (Check.f_ack v =? u32 (g_seq g + 1)) && (Check.f_plen v =? 0)
      then (0%N, mkJ (Some (u32 (Check.f_seq v + 1))) 0 [])
      else (SIG_SYNACK, j))
@@ -99,11 +109,13 @@ Definition frame_sig (g : seg) (j : jst) (fr : bytes) : N * jst :=
                        (j_pay j ++ skipn 54 fr))
     end.
 
-Fixpoint frames_sig (g : seg) (j : jst) (frs : list bytes) : N * jst :=
+Definition frame_sig (g : seg) : jst -> bytes -> N * jst := frame_sig_gen (is_syn g) g.
+
+Fixpoint frames_sig (syn : bool) (g : seg) (j : jst) (frs : list bytes) : N * jst :=
   match frs with
   | [] => (0%N, j)
-  | fr :: r => let '(s, j') := frame_sig g j fr in
-               if (s =? 0)%N then frames_sig g j' r else (s, j')
+  | fr :: r => let '(s, j') := frame_sig_gen syn g j fr in
+               if (s =? 0)%N then frames_sig syn g j' r else (s, j')
   end.
 
 Definition acked_to_end (g : seg) (frs : list bytes) : bool :=
@@ -115,18 +127,29 @@ Fixpoint steps_sig (j : jst) (steps : list step) : N * jst :=
   | [] => (0%N, j)
   | s :: r =>
       let g := p_seg s in
-      let '(e, j') := frames_sig g j (p_frames s) in
+      let wr := match p_write s with Some _ => true | None => false end in
+      let syn := is_syn g && negb wr in
+      let '(e, j') := frames_sig syn g j (p_frames s) in
       if negb (e =? 0)%N then (e, j')
-      else if is_syn g && negb (Nat.eqb (length (p_frames s)) 1) then (SIG_SYNACK, j')
-      else if negb (is_syn g) && (negb (eqb_bytes (g_payload g) []) || hasf (g_flags g) FIN)
+      else if wr then steps_sig j' r
+      else if syn && negb (Nat.eqb (length (p_frames s)) 1) then (SIG_SYNACK, j')
+      else if negb syn && (negb (eqb_bytes (g_payload g) []) || hasf (g_flags g) FIN)
               && negb (acked_to_end g (p_frames s)) then (SIG_UNACKED, j')
       else steps_sig j' r
   end.
 
+(* what the listener has to have sent, in order: every write's bytes, and the decoder's reply where
+   the decoder ran *)
+Definition expected_payload (c : case) : bytes :=
+  flat_map (fun s => match p_write s with
+                     | Some w => w
+                     | None => if p_dec s then q_reply c else []
+                     end) (q_steps c).
+
 Definition case_sig (c : case) : N :=
   let '(e, j) := steps_sig (mkJ None 0 []) (q_steps c) in
   if negb (e =? 0)%N then e
-  else if eqb_bytes (j_pay j) (q_reply c) then 0%N else SIG_REPLY.
+  else if eqb_bytes (j_pay j) (expected_payload c) then 0%N else SIG_REPLY.
 
 Definition violations (cs : list case) : list (N * N) :=
   flat_map (fun c => let s := case_sig c in if (s =? 0)%N then [] else [(q_id c, s)]) cs.
